@@ -377,32 +377,73 @@ theorem freeRun_unfold (fl : FL) (u : Nat) :
         (u + fl.sizeOf u + pickR (fl.find (u + fl.sizeOf u)) - (pickL (fl.leftOf u) ⟨u, fl.sizeOf u, false⟩).start)) := by
   rfl
 
-/-- `freeRun u` for an allocated run `⟨u, s⟩`: it merges the run with its free left neighbour (if any) and
-its free right neighbour (if any). -/
-theorem freeRun_eq {lo hi : Nat} {fl : FL} (h : FLInv lo hi fl) {u s : Nat}
+/-- `freeRun u` for an allocated run `⟨u, s⟩`: it merges the run with its free left neighbour iff there is
+one, and with its free right neighbour iff there is one (maximal coalescing). -/
+theorem freeRun_eq_strong {lo hi : Nat} {fl : FL} (h : FLInv lo hi fl) {u s : Nat}
     (hr : (⟨u, s, false⟩ : Run) ∈ fl.runs) :
-    ∃ ns es, (ns = u ∨ ∃ l ∈ fl.runs, l.free = true ∧ l.start = ns ∧ l.start + l.size = u) ∧
-      (es = 0 ∨ ∃ r ∈ fl.runs, r.free = true ∧ r.start = u + s ∧ r.size = es) ∧
+    ∃ ns es,
+      ((ns = u ∧ ∀ l ∈ fl.runs, l.free = true → l.start + l.size ≠ u) ∨
+        ∃ l ∈ fl.runs, l.free = true ∧ l.start = ns ∧ l.start + l.size = u) ∧
+      ((es = 0 ∧ ∀ r ∈ fl.runs, r.free = true → r.start ≠ u + s) ∨
+        ∃ r ∈ fl.runs, r.free = true ∧ r.start = u + s ∧ r.size = es) ∧
       fl.freeRun u = (s, fl.merged ns (u + s + es - ns)) := by
   have hsz : fl.sizeOf u = s := h.sizeOf_eq hr
   rw [freeRun_unfold, hsz]
   refine ⟨_, _, ?_, ?_, rfl⟩
   · cases hl : fl.leftOf u with
-    | none => exact Or.inl rfl
+    | none =>
+      refine Or.inl ⟨rfl, ?_⟩
+      intro l hlm _ he
+      have := h.leftOf_eq hlm
+      rw [he, hl] at this; cases this
     | some l =>
       by_cases hlf : l.free = true
       · refine Or.inr ⟨l, (FLInv.leftOf_some hl).1, hlf, ?_, (FLInv.leftOf_some hl).2⟩
         simp [pickL, hlf]
-      · refine Or.inl ?_
-        simp [pickL, hlf]
+      · refine Or.inl ⟨?_, ?_⟩
+        · simp [pickL, hlf]
+        · intro l' hlm hlf' he
+          have := h.leftOf_eq hlm
+          rw [he, hl] at this
+          cases this
+          exact hlf hlf'
   · cases hf : fl.find (u + s) with
-    | none => exact Or.inl rfl
+    | none =>
+      refine Or.inl ⟨rfl, ?_⟩
+      intro r hrm _ he
+      exact FLInv.find_none hf r hrm he
     | some r =>
       by_cases hrf : r.free = true
       · refine Or.inr ⟨r, (h.find_some hf).1, hrf, (h.find_some hf).2, ?_⟩
         simp [pickR, hrf]
-      · refine Or.inl ?_
-        simp [pickR, hrf]
+      · refine Or.inl ⟨?_, ?_⟩
+        · simp [pickR, hrf]
+        · intro r' hrm hrf' he
+          have := h.find_eq hrm
+          rw [he, hf] at this
+          cases this
+          exact hrf hrf'
+
+theorem freeRun_eq {lo hi : Nat} {fl : FL} (h : FLInv lo hi fl) {u s : Nat}
+    (hr : (⟨u, s, false⟩ : Run) ∈ fl.runs) :
+    ∃ ns es, (ns = u ∨ ∃ l ∈ fl.runs, l.free = true ∧ l.start = ns ∧ l.start + l.size = u) ∧
+      (es = 0 ∨ ∃ r ∈ fl.runs, r.free = true ∧ r.start = u + s ∧ r.size = es) ∧
+      fl.freeRun u = (s, fl.merged ns (u + s + es - ns)) := by
+  obtain ⟨ns, es, hL, hR, he⟩ := freeRun_eq_strong h hr
+  exact ⟨ns, es, hL.imp (·.1) id, hR.imp (·.1) id, he⟩
+
+theorem mem_merged {fl : FL} {ns nsz : Nat} {x : Run} :
+    x ∈ (fl.merged ns nsz).runs ↔ (x ∈ fl.runs ∧ ¬ (ns ≤ x.start ∧ x.start < ns + nsz)) ∨ x = ⟨ns, nsz, true⟩ := by
+  unfold FL.merged
+  simp only [List.mem_append, List.mem_filter, List.mem_cons, List.not_mem_nil, or_false,
+    Bool.not_eq_true', Bool.and_eq_false_iff, decide_eq_false_iff_not]
+  constructor
+  · rintro (⟨hx, ho⟩ | rfl)
+    · exact Or.inl ⟨hx, by omega⟩
+    · exact Or.inr rfl
+  · rintro (⟨hx, ho⟩ | rfl)
+    · exact Or.inl ⟨hx, by omega⟩
+    · exact Or.inr rfl
 
 /-- Every run of the map is the freed run, one of the two free neighbours merged with it, or lies
 outside the merged interval. -/
